@@ -205,9 +205,9 @@ fn random_op(rng: &mut Rng, k: OpKind) -> Op {
     if rng.chance(1, 30) {
         d |= 0x100;
     }
-    // Bad service info only rarely.
-    if (d >> 6) % 16 == 15 && !rng.chance(1, 8) {
-        d &= !(0xf << 6);
+    // A service info payload that does not decode (closes the connection): rarely.
+    if rng.chance(1, 60) {
+        d |= 0x200;
     }
     Op::new(k, a, b, c, d)
 }
@@ -247,6 +247,9 @@ fn gen_script(rng: &mut Rng, prof: &Profile, minor: u32, abuser: bool, conforman
                 op.c -= 1;
             }
             op.d = rng.next_u32() & 0x1ff;
+            if rng.chance(1, 8) {
+                op.d |= 0x200;
+            }
             script.push(op);
             continue;
         }
@@ -256,7 +259,7 @@ fn gen_script(rng: &mut Rng, prof: &Profile, minor: u32, abuser: bool, conforman
         }
         let mut op = random_op(rng, k);
         if conformant {
-            op.d &= !0x106; // never force newer variants, never reuse a pending serial
+            op.d &= !0x306; // never force newer variants, never reuse a pending serial, no bad info
             op.c &= !0x1f; // always with serial
             if op.c % 16 == 15 {
                 op.c -= 1;
